@@ -76,6 +76,13 @@ func sameValue(a, b ssa.Value) bool {
 	if a == b {
 		return true
 	}
+	// a parameter that a function literal captures lives in a cell that is written once, at entry (go/ssa spills it):
+	// every load of the cell is the parameter
+	if ra, rb := spilledParam(a), spilledParam(b); ra != a || rb != b {
+		if ra == rb {
+			return true
+		}
+	}
 	ua, ok1 := a.(*ssa.UnOp)
 	ub, ok2 := b.(*ssa.UnOp)
 	if ok1 && ok2 && ua.Op == token.MUL && ub.Op == token.MUL && ua.X == ub.X {
@@ -464,4 +471,36 @@ func knownLen(y ssa.Value) (int64, bool) {
 		}
 	})
 	return n, good && n >= 0
+}
+
+// spilledParam: v is a load of a cell whose only store, anywhere (the function literals that capture it included), is the
+// spill of a parameter at the function's entry: the parameter; otherwise v itself.
+func spilledParam(v ssa.Value) ssa.Value {
+	u, ok := v.(*ssa.UnOp)
+	if !ok || u.Op != token.MUL {
+		return v
+	}
+	a, ok := u.X.(*ssa.Alloc)
+	if !ok {
+		return v
+	}
+	st := storesTo(a)
+	if len(st) != 1 {
+		return v
+	}
+	p, ok := st[0].Val.(*ssa.Parameter)
+	if !ok || st[0].Parent() != a.Parent() || st[0].Block() != a.Parent().Blocks[0] {
+		return v
+	}
+	// the address itself must not travel (only loads, the store, captures and debug references)
+	if refs := a.Referrers(); refs != nil {
+		for _, r := range *refs {
+			switch r.(type) {
+			case *ssa.UnOp, *ssa.Store, *ssa.MakeClosure, *ssa.DebugRef:
+			default:
+				return v
+			}
+		}
+	}
+	return p
 }
